@@ -104,7 +104,7 @@ func runC05(r *Run) {
 		out.WChunk = t.Weighted(4, 1, 2, 2, 2)
 		out.OpBudget = 2500
 		if t.Pct(30) {
-			out.DelayPct, out.Delays = 5, []time.Duration{time.Millisecond, 50 * time.Millisecond, time.Second}
+			out.DelayPct, out.Delays = 5, []time.Duration{time.Millisecond, 20 * time.Millisecond} // (small: the library bounds pong writes to 5 s)
 		}
 		defl, nct := o.Deflate()
 		neg = Negotiated{Deflate: defl, CNCT: nct, SNCT: nct}
@@ -225,7 +225,12 @@ func runC05(r *Run) {
 					return
 				}
 				var data []byte
-				for {
+				for k := 0; ; k++ {
+					if k%3 == 1 {
+						// between two Read calls of one message nobody holds the read
+						// lock: a scheduling point lets a Close slip in right there
+						r.S.Park("a.b.reader.mid")
+					}
 					n, e := rd.Read(buf)
 					data = append(data, buf[:n]...)
 					if e == io.EOF {
